@@ -21,10 +21,23 @@ PR_FLAGS = (0, 1, 2, 3, 5, 7, 9, 11)
 # jbl_ptr_serialize writes '~' and '/' inside a segment back unescaped (defect 6, notes/jbinn.md): a pointer utility outside the
 # statement of C14 - measured and counted; judged only with VERIF_C14_JUDGE_OPEN=1
 JUDGE_OPEN = os.environ.get("VERIF_C14_JUDGE_OPEN") == "1"
+# Round 7 (defects of the unmodified library reported by an adversary, reproduced; notes/jbinn.md "Round 7"); each is measured
+# and counted, and judged only with its switch until the integrator commits the repair (default = tolerate):
+#  VERIF_C14_JUDGE_SIZE=1    jbl_size() of a fresh jbl_clone / of a document just changed by jbl_set_* is stale (0 / the old size)
+#                            until a read writes the header                                  fixes/jbinn-size-stale-header.diff
+#  VERIF_C14_JUDGE_SCLONE=1  jbl_clone() of a scalar value (a result of jbl_at) fails AND leaves a leaked struct in *targetp
+#                                                                                             fixes/jbinn-clone-scalar-leak.diff
+#  VERIF_C14_JUDGE_FOREIGN=1 jbl_to_node(pool) of a buffer holding a binn type without a JSON counterpart (blob ...) free()s pool
+#                            memory: abort.  The `dec` lines with such buffers are only GENERATED with the switch (they kill the
+#                            harness on the unrepaired library)                           fixes/jbinn-create-node-pool-free.diff
+JUDGE_SIZE = os.environ.get("VERIF_C14_JUDGE_SIZE") == "1"
+JUDGE_SCLONE = os.environ.get("VERIF_C14_JUDGE_SCLONE") == "1"
+JUDGE_FOREIGN = os.environ.get("VERIF_C14_JUDGE_FOREIGN") == "1"
 # clone independence (indc / indp cells): a clone that still writes into the buffer of its source (jbl_clone_into_pool until
 # 3cda5bf; the harness reports ALIAS and disarms it) is a violation
 IND_KINDS = ("S.node", "S.buf", "S.set", "S.setr", "S.json")
-KNOWN_FIX = {"jbl_ptr_serialize-unescaped": "jbinn-ptr-serialize-escape.diff", "jbn_get-borrowed-keys": "jbinn-get-borrowed-keys.diff"}
+KNOWN_FIX = {"jbl_ptr_serialize-unescaped": "jbinn-ptr-serialize-escape.diff", "jbn_get-borrowed-keys": "jbinn-get-borrowed-keys.diff",
+             "jbl_size-stale-header": "jbinn-size-stale-header.diff", "jbl_clone-scalar-leak": "jbinn-clone-scalar-leak.diff"}
 
 
 # ------------------------------------------------------------------------------------------------ values and dumps
@@ -779,6 +792,18 @@ def judge_independence(doc, ans, fname):
     own change>  - see ind_cells of harness/h_jbinn.c"""
     if ans.startswith("ERR"):
         return "%s failed (%s)" % (fname, ans)
+    stale = None
+    if ans.startswith("Z"):
+        z, _, ans = ans[1:].partition(":")
+        try:
+            z1, z2, z3, z4 = (int(x) for x in z.split("."))
+        except ValueError:
+            return "unreadable sizes"
+        if z1 != z2 or z3 != z4:
+            KNOWN_HITS["jbl_size-stale-header"] = KNOWN_HITS.get("jbl_size-stale-header", 0) + 1
+            if JUDGE_SIZE:
+                stale = ("jbl_size of the fresh clone made by %s says %d, jbl_as_buf %d; jbl_size of the source right after jbl_set_int64 "
+                         "says %d, jbl_as_buf %d" % (fname, z1, z2, z3, z4))
     alias = ans.startswith("ALIAS:")
     if alias:
         return ("the clone made by %s is writable and writes into the buffer of its source: changing one document changes "
@@ -797,7 +822,7 @@ def judge_independence(doc, ans, fname):
     want_cl = with_member(doc, b"\x01c", 88) if r2 == "0" else doc
     if not veq(want_cl, d2):
         return "the clone made by %s does not hold what was stored into it" % fname
-    return None
+    return stale
 
 
 def mx_oracle(q, out):
@@ -1060,6 +1085,12 @@ def oracle(query, out):
             path = b"" if q[2] == "-" else bytes.fromhex(q[2])
             toks = rfc_parse(path)
             bad += ptr_oracle(path, f)
+            if "sclone" in f:
+                src, _, tgt = f["sclone"].partition(":")
+                if src != "0" and tgt != "null":
+                    KNOWN_HITS["jbl_clone-scalar-leak"] = KNOWN_HITS.get("jbl_clone-scalar-leak", 0) + 1
+                    if JUDGE_SCLONE:
+                        bad.append("jbl_clone of a scalar value failed (%s) and left *targetp %s: a struct nobody can destroy" % (src, tgt))
             if f.get("balias") == "1" or f.get("b2alias") == "1":
                 bad.append("the result of jbl_at owns the buffer of the document: jbl_destroy(result), as documented, frees it")
             if not in_scope(doc) or toks is None or 0 in path:
@@ -1096,7 +1127,13 @@ def oracle(query, out):
                     bad.append("tree and binary form print different texts under print flags %d%s: %s vs %s" % (
                         pf, " (JBL_PRINT_PRETTY_INDENT%d)" % (2 if pf & 4 else 4) if pf & 12 else "", t[:120], b[:120]))
         elif q[0] == "dec":
-            exp = binn_value(q[1])
+            try:
+                exp = binn_value(q[1])
+            except (BadBinn, ValueError, IndexError):
+                # not the binary form of a JSON document (blob, time ...): binary -> tree has to refuse it
+                if f.get("rc") == "0" and not f.get("back", "ERR").startswith("ERR"):
+                    bad.append("binary -> tree accepted a buffer that holds a binn type without a JSON counterpart: %s" % f["back"][:120])
+                return bad
             if in_scope(exp) and f.get("rc") == "0" and not veq(exp, parse_dump(f["back"])):
                 bad.append("binary -> tree: expected %s got %s" % (dump(exp)[:120], f["back"][:120]))
     except (BadDump, KeyError, IndexError) as e:
@@ -1159,6 +1196,12 @@ def build_queries(run, mult):
         if kind in ("plain", "nul") and (is_obj(doc) or isinstance(doc, list)) and in_scope(doc) and len(d) < 6000 and (
                 quick or rng.chance(1, 3)):
             lines += matrix_queries(run, rng, doc, d)
+    if JUDGE_FOREIGN:
+        # buffers no JSON document encodes to: a blob (0xC0), a date string (0xA3 0x..), a map - binary -> tree must refuse them
+        # (JBL_ERROR_CREATION / INVALID), not abort
+        for h in ("e2110201612001" + "0162c0" + "00000003" + "78797a", "e00b022001c0" + "00000001" + "ff", "e00c0183" + "0000000000000001"):
+            lines.append("dec " + h)
+            run.dist("dec-foreign-type")
     for p in (b"", b"/", b"//", b"/a", b"/a/b", b"/a//b", b"/~0", b"/~1", b"/~01", b"/~10", b"/a~0b~1c/~1", b"a", b"a/b", b"/a/", b"//a/",
               b"/ ", b"/\xff\xfe", b"/" + b"x" * 300, b"/0/1/2/3/4/5/6/7/8/9", b"/~0~0~1~1", b"/*", b"/a/*/b"):
         lines.append("ptr " + vlib.hexs(p))
@@ -1253,6 +1296,11 @@ def compare_matrix(q, out_i, out_m):
             all_are(c, m.get("back"), "back")
         all_are("cl", m.get("ncl"), "ncl")
         all_are("cnt", m.get("cnt"), "cnt")
+        if m.get("sz") is not None:
+            for cons in ("indc", "indp"):
+                for ans, ps in cells.get(cons, []):
+                    if ans.startswith("Z") and ans[1:].split(":")[0].split(".")[1] != m["sz"]:
+                        bad.append("sz[%s:%s]" % (cons, ",".join(ps)))
         all_are("it", m.get("it"), "it")
         # printed texts: the tree producers against the model's tree printer (C13's as_json), the binary producers against
         # the model's binn-walking printer (BinnAcc.print_binn)
@@ -1354,7 +1402,8 @@ def check(run):
             run.notes.append("matrix cells not exercised in this run: " + ", ".join(empty[:20]))
     for k, n in KNOWN_HITS.items():
         run.dist("known-defect " + k, n)
-        judged = k.startswith("jbl_ptr_serialize") and JUDGE_OPEN
+        judged = (k.startswith("jbl_ptr_serialize") and JUDGE_OPEN) or (k.startswith("jbl_size") and JUDGE_SIZE) or (
+            k.startswith("jbl_clone-scalar") and JUDGE_SCLONE)
         run.notes.append("known defect of the unmodified library, measured in %d answers and %s: %s (notes/jbinn.md, fixes/%s)" % (
             n, "judged" if judged else "not judged", k, KNOWN_FIX.get(k, "?")))
     if mism:
